@@ -23,7 +23,7 @@ const char *const kPatternMenu[] = {
     "%{type:>8}:%{message}",
     "%{if-warning}W: %{message}%{endif}", // nothing at all for the other types: an empty (not an unformatted) text
 };
-const char *const kFiles[] = { nullptr, "main.cpp", "/src/app/worker.cpp", "../lib/net.cpp" };
+const char *const kFiles[] = { nullptr, "main.cpp", "/src/app/worker.cpp", "../lib/net.cpp", "main.c", "" };
 const char *const kFunctions[] = { nullptr, "int main(int, char**)", "void Worker::run()",
                                    "bool Net::send(const QByteArray&)" };
 
